@@ -554,7 +554,7 @@ async def scenario(rng, backend, tier, hostile=False):
         await d.msg(0, ["EVENT", e])
         stored.add(e["id"])
     steps = rng.randint(4, 14 if tier == "quick" else 30)
-    sids = ["a", "b", "c", "aé", ""]
+    sids = ["a", "b", "c", "a\u00e9", "", "q\"uote", "back\\slash", "line\nbreak"]
     odd = [5, True, None, -3, 0, False]
     used = {}
     for _ in range(steps):
